@@ -4,20 +4,25 @@ sources, each aimed at one check) against the current checks: apply to /repo's w
 run that check at quick tier without evidence, undo. Results: /verif/seeded/hand_mutants_results.json.
 A mutant that no longer applies (the source moved on) is reported as such, not as a survivor."""
 import json, subprocess, sys, os, glob
+# defaults: /repo's working tree and /verif/sim; HM_REPO / HM_SIM / KVERIF_ROOT point a run at a scratch
+# worktree of /repo and a scratch copy of /verif/sim (whose shadow manifest names that worktree)
+REPO = os.environ.get('HM_REPO', '/repo')
+SIM = os.environ.get('HM_SIM', '/verif/sim')
+ROOT = os.environ.get('KVERIF_ROOT', '/verif')
 cat = json.load(open('/verif/tools/hand_mutants.json'))
 only = sys.argv[1:]
 results = []
 def sh(c, **k): return subprocess.run(c, shell=True, capture_output=True, text=True, **k)
 for i, m in enumerate(cat):
     if only and m['check'] not in only: continue
-    if sh('git -C /repo diff --quiet').returncode != 0:
+    if sh(f'git -C {REPO} diff --quiet').returncode != 0:
         print('repo dirty'); sys.exit(2)
     status = None; oracle = None
-    before = set(glob.glob('/verif/replays/*.json'))
+    before = set(glob.glob(f'{ROOT}/replays/*.json'))
     try:
         applied = True
         for e in m['edits']:
-            p = '/repo/crates/kira/src/' + e['file']
+            p = f'{REPO}/crates/kira/src/' + e['file']
             s = open(p).read()
             if m['kind'] == 'replace':
                 old = e['old'].encode().decode('unicode_escape'); new = e['new'].encode().decode('unicode_escape')
@@ -29,20 +34,20 @@ for i, m in enumerate(cat):
         if not applied:
             status = 'does-not-apply'
         else:
-            b = sh('cd /verif/sim && CARGO_NET_OFFLINE=true cargo build --release --offline')
+            b = sh(f'cd {SIM} && CARGO_NET_OFFLINE=true cargo build --release --offline')
             if b.returncode != 0:
                 status = 'does-not-compile'
             else:
-                r = sh(f'cd /verif && timeout 1800 ./sim/target/release/kverif check {m["check"]} --tier quick --no-evidence')
+                r = sh(f'timeout 1800 {SIM}/target/release/kverif check {m["check"]} --tier quick --no-evidence')
                 o = [l for l in (r.stdout + r.stderr).split('\n') if l.startswith('oracle')]
                 oracle = o[0][:300] if o else None
                 status = 'caught' if r.returncode == 1 else ('survived' if r.returncode == 0 else f'harness-exit-{r.returncode}')
     finally:
-        sh('git -C /repo checkout -- .')
-        for p in set(glob.glob('/verif/replays/*.json')) - before: os.remove(p)
+        sh(f'git -C {REPO} checkout -- .')
+        for p in set(glob.glob(f'{ROOT}/replays/*.json')) - before: os.remove(p)
     results.append({'n': i, **m, 'status': status, 'oracle': oracle})
     print(i, m['check'], status, (oracle or '')[:150], flush=True)
-sh('cd /verif/sim && CARGO_NET_OFFLINE=true cargo build --release --offline')
+sh(f'cd {SIM} && CARGO_NET_OFFLINE=true cargo build --release --offline')
 json.dump(results, open('/verif/seeded/hand_mutants_results.json', 'w'), indent=1)
 from collections import Counter
 print(Counter(r['status'] for r in results))
